@@ -213,6 +213,8 @@ LAW(L1_alias_history, RC, 60000, 2000000, 300, "history with a chain of length >
           for (auto& l : order) { int r = l.second; int hops = 0; while (srcOf.count(r) && hops++ < 10) r = srcOf[r]; m.setAndPropagate(l.second, probe.v[r]); }
           if (links.size() >= 1) ntChain = ntChain || links.size() >= 2;
         } else {
+          // every key is independent and every value lies inside every constraint of the pool: as for the single request, only a cycle justifies a refusal
+          CHECK(cyclic, "bulk alias refused a map without a cycle whose keys are all independent");
           // a raising bulk call may leave a partial result: only mutual consistency of the views is demanded, then the case ends
           const ParameterList& ip = o.getIndependentParameters();
           for (int q = 0; q < m.n; ++q) {
